@@ -465,7 +465,7 @@ func (hn *harness) validateKill(g *group, in *inst, mb member, rr *runResult) st
 		if !ok {
 			return fmt.Sprintf("call class %s does not occur in any baseline", k)
 		}
-		if v > max && !timingDependent[k] {
+		if v > max && !g.varies(k) {
 			return fmt.Sprintf("%d calls of class %s, the baselines have at most %d", v, k, max)
 		}
 	}
